@@ -333,3 +333,63 @@ def late_reads(ctx):
     pos = ast.parse("def make(space, parameters):\n    w = rule(parameters.quadrature.regular)\n    def evaluator(x):\n        q = rule(parameters.quadrature.regular)\n        return q\n    return evaluator\n").body[0]
     neg = ast.parse("def make(space, parameters):\n    q = rule(parameters.quadrature.regular)\n    def helper(x):\n        return rule(parameters.quadrature.regular)\n    y = helper(1)\n    def evaluator(x):\n        return q\n    return evaluator\n").body[0]
     r.must_fire(len(late_parameter_reads(pos, roles.Defs(pos))) == 1 and not late_parameter_reads(neg, roles.Defs(neg)), "evaluator closure reading parameters.quadrature.regular at call time")
+
+
+# ---------------------------------------------------------------- the assembler objects: what is resolved at construction
+
+
+ASSEMBLER_CLASSES = {"only_singular_part": "SingularAssembler", "only_diagonal_part": "DiagonalAssembler", "dense": "DenseAssembler", "default_nonlocal": "DenseAssembler",
+                     "sparse": "SparseAssembler", "fmm": "FmmAssembler"}
+
+
+def assembler_plumbing(ctx):
+    """The parameter object, device interface and precision given to an operator reach its assembler unchanged."""
+    from . import dispatch
+
+    rel = "bempp_cl/api/assembly/assembler.py"
+    m = ctx.repo.mod(rel)
+    r = ctx.rule("ASSEMBLER-PLUMBING", "AssemblerInterface: the given parameter object is resolved once (assign_parameters) and handed, with domain / dual_to_range / device interface, to the assembler class named by the identifier; "
+                 "assemble() forwards the stored device interface and precision", 9)
+    fn = m.fn("_create_assembler")
+    p = arg_names(fn)
+    if len(p) < 4:
+        raise AnalysisError("_create_assembler: signature changed")
+    for ident, cls in list(ASSEMBLER_CLASSES.items()) + [("no_such_assembler", None)]:
+        kind, node = dispatch.select(fn, {p[2]: ident, "check_for_fmm()": True})
+        if cls is None:
+            r.check(kind == "raise", "unknown identifier", rel, fn.name, fn.lineno, "_create_assembler: unknown identifier", "an unknown assembler identifier is not rejected")
+            continue
+        got = (unparse(node.func).split(".")[-1], [unparse(a) for a in node.args], [k.arg for k in node.keywords]) if kind == "return" and isinstance(node, ast.Call) else None
+        r.check(got == (cls, [p[0], p[1], p[3]], []), "identifier %r" % ident, rel, fn.name, getattr(node, "lineno", fn.lineno), "_create_assembler(%r)" % ident,
+                "identifier %r builds %s, expected %s(%s, %s, %s)" % (ident, got, cls, p[0], p[1], p[3]))
+    for cname, forwards in (("AssemblerInterface", True), ("AssemblerBase", False)):
+        fi = m.fn(cname + ".__init__")
+        pa = arg_names(fi)
+        defs = roles.Defs(fi)
+        S = roles.stores(fi.body, defs, lv=False)
+        par = [s for s in S if s.target == "self._parameters"]
+        ok = len(par) == 1 and not par[0].guards and par[0].value.replace(" ", "").endswith("assign_parameters(parameters)") and "parameters" in pa
+        r.check(ok, cname + " parameters", rel, cname + ".__init__", fi.lineno, cname + " parameter resolution",
+                "self._parameters is `%s`, expected assign_parameters(<the parameters argument>), unconditionally" % ([s.value for s in par],))
+        if not forwards:
+            continue
+        calls = [c for c in calls_in(fi) if unparse(c.func) == "_create_assembler"]
+        prop = m.fn(cname + ".parameters")
+        prop_ok = [roles.canon(s.value, roles.Defs(prop)) for s in ast.walk(prop) if isinstance(s, ast.Return)] == ["self._parameters"]
+        got = [roles.canon(a, defs).replace(" ", "") for a in calls[0].args] if len(calls) == 1 else None
+        want = [pa[1], pa[2], pa[3], None, pa[4]]
+        okc = got is not None and len(got) == 5 and all(w is None or g == w for g, w in zip(got, want)) and (got[3] in ("self.parameters", "self._parameters") or got[3].replace(" ", "").endswith("assign_parameters(parameters)")) and prop_ok
+        r.check(okc, cname + " -> _create_assembler", rel, cname + ".__init__", calls[0].lineno if calls else fi.lineno, "arguments of _create_assembler",
+                "_create_assembler receives %s, expected (domain, dual_to_range, assembler, the resolved parameters, device_interface)" % got)
+        dev = [s for s in S if s.target == "self._device_interface"]
+        prec = [s for s in S if s.target == "self._precision"]
+        okd = any(s.value == pa[4] and not s.guards for s in dev) and all(s.value == pa[4] or (s.guards and s.guards[-1][0].replace(" ", "") in ("(self._device_interfaceIsNone)", "(%sIsNone)" % pa[4]) and s.guards[-1][1] is True) for s in dev) \
+            and [s.value for s in prec] == [pa[5]]
+        r.check(okd, cname + " device / precision", rel, cname + ".__init__", fi.lineno, "stored device interface and precision",
+                "device interface stores %s, precision stores %s: expected the arguments, the default device only when None was given" % ([(s.value, s.guards) for s in dev], [s.value for s in prec]))
+        fa = m.fn(cname + ".assemble")
+        pas = arg_names(fa)
+        ca = [c for c in calls_in(fa) if unparse(c.func) == "self._implementation.assemble"]
+        oka = len(ca) == 1 and [unparse(a) for a in ca[0].args[:3]] == [pas[1], "self._device_interface", "self._precision"]
+        r.check(oka, cname + ".assemble", rel, cname + ".assemble", fa.lineno, "assemble forwards descriptor, device interface, precision",
+                "the implementation is called with %s, expected (operator_descriptor, self._device_interface, self._precision, ...)" % ([unparse(a) for a in ca[0].args[:3]] if ca else None))
